@@ -55,6 +55,42 @@ theorem transfer_out (multi : Bool) (ops : List (Op K)) (op : Op K) :
   rw [step_toSt _ op hk]
   cases step (run multi ops) op <;> rfl
 
+/-- the contents of a generic container with the keys relabelled by `f` -/
+def absF (f : K → Int) (s : St K) : List Spec.KV := Avl.abs (toSt f s)
+
+theorem absF_eq (f : K → Int) (s : St K) : absF f s = s.t.inorder.map (fun e => (f e.2.1, e.2.2)) := by
+  simp [absF, Avl.abs, Avl.kv, toSt, toI_inorder, toE]
+
+/-- **Refinement for every key type** (`refines_rel` restated over `K`): from the state after any
+    history over any strictly totally ordered key type, every op — relabelled by the order
+    embedding `f = rank` of the finitely many keys involved — takes a step of the sorted-(multi)map
+    specification: acceptance, contents after the op and returned value.  (`f` preserves and
+    reflects `<`, `≤`, `=` among these keys (`transfer`), so the relabelled contents determine the
+    contents over `K`.) -/
+theorem refines_rel (multi : Bool) (ops : List (Op K)) (op : Op K) :
+    Spec.Step multi (absF (rank (keysOf [op] ++ keysOf ops)) (run multi ops))
+      (toOp (rank (keysOf [op] ++ keysOf ops)) op)
+      ((step (run multi ops) op).map
+        (fun r => (absF (rank (keysOf [op] ++ keysOf ops)) r.1, r.2.ret))) := by
+  obtain ⟨hL, h1, h2⟩ := transfer multi ops (keysOf [op])
+  have hk : ∀ k, opKey op = some k → All (Pres (rank (keysOf [op] ++ keysOf ops)) k) (run multi ops).t := by
+    intro k hk
+    have hkL : k ∈ keysOf [op] ++ keysOf ops := by
+      apply List.mem_append_left
+      unfold keysOf; rw [List.mem_filterMap]; exact ⟨op, by simp, hk⟩
+    exact all_imp (fun x hx => hL k hkL x hx) _ h2
+  have hreach : Avl.Reach multi (toSt (rank (keysOf [op] ++ keysOf ops)) (run multi ops)) := by
+    rw [h1]; exact Avl.reach_run _ _
+  have := Avl.refines_rel hreach (toOp (rank (keysOf [op] ++ keysOf ops)) op)
+  have e : Avl.outcome (toSt (rank (keysOf [op] ++ keysOf ops)) (run multi ops))
+      (toOp (rank (keysOf [op] ++ keysOf ops)) op) =
+      (step (run multi ops) op).map (fun r => (absF (rank (keysOf [op] ++ keysOf ops)) r.1, r.2.ret)) := by
+    unfold Avl.outcome
+    rw [step_toSt _ op hk]
+    cases step (run multi ops) op <;> rfl
+  rw [e] at this
+  exact this
+
 theorem findCmps_toSt (f : K → Int) (s : St K) (k : K) (hk : All (Pres f k) s.t) :
     (toSt f s).findCmps (f k) = s.findCmps k := by
   unfold St.findCmps Avl.St.findCmps
